@@ -9,6 +9,7 @@ import PasfmtModel.Proofs.SpacingLayoutW
 import PasfmtModel.Model.Pipeline
 import PasfmtModel.Generated.Inventory
 import PasfmtModel.Proofs.LayoutFull
+import PasfmtModel.Proofs.SearchMustBreak
 
 namespace Pasfmt.C06
 
@@ -180,5 +181,64 @@ theorem C06_format_full_checked (cfg : Config) (alnum : Bytes → Bool) (s1 s2 :
     (h : layoutPremisesB cfg alnum s1 s2 = true) :
     ∃ out, formatFull cfg alnum s1 = some out ∧ formatFull cfg alnum s2 = some out :=
   formatFull_layout_checked cfg alnum s1 s2 h
+
+/-- **The search breaks where it must.**  Every solution `find_optimal_solution` returns for line `li` - at every depth
+    of the recursion over child lines, whatever the cache holds as long as its entries have the property - satisfies
+    `TreeMB O li`: wherever `get_formatting_invariant` answers `MustBreak` for a token of the line (e.g. the token
+    follows a line comment), the decision for that token is a break; and the same holds for the solutions of the child
+    lines hanging off its decisions, each for its own line (`treeMB_iff` spells the predicate out). -/
+theorem search_breaks_where_it_must (O : Olf) (fuel : Nat) (cache : ChildLineCache) (ws : LineWhitespace) (li : Nat)
+    (fd : FirstDecision) (hc : CacheMB O cache) :
+    CacheMB O (O.findOptimalSolution fuel cache ws li fd).2 ∧
+    ∀ sol, (O.findOptimalSolution fuel cache ws li fd).1 = .ok sol →
+      ∀ i d, sol.decisions[i]? = some d →
+        (O.getFormattingInvariant i (O.lines[li]!) = some .mustBreak → d.decision.toRaw = .brk) ∧
+        ∀ x ∈ d.childSolutions, TreeMB O x.1 x.2 := by
+  obtain ⟨h1, h2⟩ := findOptimalSolution_mb O fuel cache ws li fd hc
+  exact ⟨h1, fun sol hs i d hd => (treeMB_iff O li sol).1 (h2 sol hs) i d hd⟩
+
+/-- **The wrapper stage breaks behind a trailing line comment.**  In the result of the wrapper stage (search included),
+    every token that follows a line comment sharing its line with code, whose own spacing rule could keep the input's
+    spaces, and that is written by a solution the stage applies (in either phase, at any depth of child lines, at any
+    position of its line) starts a line. -/
+theorem wrapper_breaks_after_line_comment (cfg : Config) (lines : List Line) (ft ftz : FT)
+    (sols : List (Nat × Nat × Sol)) (h : wrapStageFull cfg lines ft = some (ftz, sols)) (j : Nat)
+    (hfree : freeAtB ft j = true) (hw : ∃ x ∈ sols, j ∈ solTokens lines x.2.2 x.2.1) :
+    ∃ t, ftz[j]? = some t ∧ t.fmt.nl > 0 := by
+  obtain ⟨f, hf, hpos⟩ := wrapStageFull_free_broken cfg lines ft ftz sols h j (freeK_of_freeAtB hfree).1 hw
+  unfold fmtAt at hf
+  cases ht : ftz[j]? with
+  | none => rw [ht] at hf; cases hf
+  | some t =>
+    rw [ht] at hf
+    simp only [Option.map_some, Option.some.injEq] at hf
+    subst hf
+    exact ⟨t, rfl, hpos⟩
+
+/-- the premise `freeBrokenB` of `C06_format_full` follows from `allWritten` and `freeBeforeBrokenB`, the restriction of
+    `freeBrokenB` to the tokens no solution of the search writes (verbatim tokens, the end-of-file token written by the
+    end-of-file rule) -/
+theorem free_tokens_broken (cfg : Config) (lines : List Line) (ft ftz : FT) (sols : List (Nat × Nat × Sol))
+    (h : wrapStageFull cfg lines ft = some (ftz, sols))
+    (hall : allWritten lines (writtenBefore lines ft) ft.length sols = true)
+    (hnb : freeBeforeBrokenB lines ft ftz = true) : freeBrokenB ft ftz = true :=
+  freeBrokenB_of_stage' cfg lines ft ftz sols h hall hnb
+
+/-- **C06 for the closed model, decided per pair, without a premise about what the search decided.**
+    `layoutPremisesB'` is `layoutPremisesB` with `freeBrokenB` ("every free token behind a trailing line comment starts
+    a line in the result") replaced by `freeBeforeBrokenB`, its restriction to the tokens that no solution of the search
+    writes (tokens kept verbatim and the end-of-file token written by the end-of-file rule; vacuous when no such token
+    is free, `freeNotBeforeB`): that the wrapper breaks before every free token it writes is now proved from the search
+    (`search_breaks_where_it_must`, `wrapper_breaks_after_line_comment`).  The two premise sets are equivalent
+    (`layoutPremises_iff`), so the driver's verdicts carry over. -/
+theorem C06_format_full_checked' (cfg : Config) (alnum : Bytes → Bool) (s1 s2 : Bytes)
+    (h : layoutPremisesB' cfg alnum s1 s2 = true) :
+    ∃ out, formatFull cfg alnum s1 = some out ∧ formatFull cfg alnum s2 = some out :=
+  C06_format_full_checked cfg alnum s1 s2 (layoutPremisesB_of' cfg alnum s1 s2 h)
+
+/-- the premise sets of `C06_format_full_checked` and `C06_format_full_checked'` hold for the same pairs -/
+theorem layoutPremises_iff (cfg : Config) (alnum : Bytes → Bool) (s1 s2 : Bytes) :
+    layoutPremisesB' cfg alnum s1 s2 = true ↔ layoutPremisesB cfg alnum s1 s2 = true :=
+  ⟨layoutPremisesB_of' cfg alnum s1 s2, layoutPremisesB'_of cfg alnum s1 s2⟩
 
 end Pasfmt.C06
